@@ -135,6 +135,50 @@ func init() {
 			return fnsResult(rn, res, err), class
 		}
 	}
+	// fns.lookup2: ONE PathGetter value (one path slice, blank parts included) applied twice, as a filter held in a
+	// variable is: the second application must behave as a fresh lookup of the same path on the document the first
+	// one left, and the caller's path slice must come back as it went in.
+	components["fns.lookup2"] = func(r *rand.Rand, tier string) (map[string]interface{}, func() (interface{}, string)) {
+		doc := genMap(r, depthFor(tier), false)
+		base := genPathFor(r, doc, 4)
+		var path []string
+		for _, p := range base {
+			if r.Intn(3) == 0 {
+				path = append(path, pickS(r, []string{"", " ", "  "}))
+			}
+			path = append(path, p)
+		}
+		if r.Intn(4) == 0 {
+			path = append(path, "")
+		}
+		create := 0
+		if r.Intn(3) != 0 {
+			create = 1 + r.Intn(3)
+		}
+		args := map[string]interface{}{"doc": doc, "path": path, "create": create, "style": 0, "ns": nsGraph(doc, path)}
+		return args, func() (interface{}, string) {
+			rn := yaml.NewRNode(wireToNode(doc))
+			kinds := map[int]yaml.Kind{0: 0, 1: yaml.ScalarNode, 2: yaml.MappingNode, 3: yaml.SequenceNode}
+			held := append([]string{}, path...)
+			pg := yaml.PathGetter{Path: held, Create: kinds[create]}
+			if _, err := rn.Pipe(pg); err != nil {
+				return map[string]interface{}{"err": classifyKyamlErr(err)}, "err1-" + classifyKyamlErr(err)
+			}
+			res, err := rn.Pipe(pg)
+			if err != nil {
+				return map[string]interface{}{"err": "second:" + classifyKyamlErr(err)}, "err2-" + classifyKyamlErr(err)
+			}
+			class := "found"
+			if res == nil {
+				class = "none"
+			}
+			ps := []interface{}{}
+			for _, x := range held {
+				ps = append(ps, x)
+			}
+			return map[string]interface{}{"ok": map[string]interface{}{"doc": rnodeToWire(rn), "res": rnodeToWire(res), "path": ps}}, class
+		}
+	}
 	components["fns.setfield"] = func(r *rand.Rand, tier string) (map[string]interface{}, func() (interface{}, string)) {
 		var doc interface{} = genMap(r, depthFor(tier), r.Intn(6) == 0)
 		if r.Intn(12) == 0 {
